@@ -183,6 +183,9 @@ fn storm(cc: &mut CaseCtx, cell: &mut Cell, storm_id: u64, rep: &mut Report) -> 
     let detail = json!({"storm": storm_id, "clients": n, "factor": factor, "max_connections": m, "evict_on_queue_full": cell.cfg.evict,
         "max_requests_held_simultaneously_by_backends": max_live});
     rep.case_bytes(format!("{class}|{factor}|{}", max_live == m).as_bytes(), true);
+    if rep.samples.len() < 4 {
+        rep.sample(detail.clone());
+    }
     if max_live == m {
         rep.obs("storms_saturated", 1);
     }
